@@ -296,3 +296,16 @@ Definition state_cov (c : hctx K) (V2 : list (list K)) : list (list K) := map (m
 End Prog.
 End Model.
 
+(* ------------------------------------------------------------------------------------------------ *)
+(* re-use of operation objects: an operation keeps its user parameter (self.p[0], self.select); every
+   _apply / _decompose converts the stored value with a pure function on a LOCAL copy
+   (`select = self.select; if select is not None: select = select / s`) and leaves the object as it was.
+   op_apply: (stored value after the application, number handed to the backend) *)
+Definition op_apply {K : Type} (conv : K -> K) (stored : K) : K * K := (stored, conv stored).
+Fixpoint op_apply_n {K : Type} (conv : K -> K) (stored : K) (n : nat) : K * list K :=
+  match n with
+  | O => (stored, [])
+  | S m => let (st1, a) := op_apply conv stored in
+           let (st2, l) := op_apply_n conv st1 m in (st2, a :: l)
+  end.
+
